@@ -329,35 +329,43 @@ Proof.
   reflexivity.
 Qed.
 
+(* int() on a junction that passed str.isdecimal(): it can fail only on the interpreter's digit limit *)
+Lemma py_int_decimal body : py_isdecimal body = true ->
+  py_int body = if int_limit_ok (length body) then Ok (Z.of_N (numeral_value body)) else Err ValueError.
+Proof.
+  unfold py_isdecimal. rewrite andb_true_iff. intros [Hne Hd].
+  assert (Hn : forallb cp_isnumeric body = true).
+  { apply forallb_forall. intros c I. apply cp_decimal_numeric. rewrite forallb_forall in Hd. auto. }
+  rewrite (py_int_numeric body Hn), Hne, Hd. reflexivity.
+Qed.
+
 Section ChainCodeLemmas.
   Variable blake : list N -> list N.
 
-  Lemma chain_code_gen_int err body v : py_isnumeric body = true -> py_int body = Ok (Z.of_N v) ->
-    chain_code_gen blake err body =
-    (enc <- match find (fun be => N.size v <=? fst be) enc_table with
+  Lemma chain_code_int body : py_isdecimal body = true -> int_limit_ok (length body) = true ->
+    chain_code blake body =
+    (enc <- match find (fun be => N.size (numeral_value body) <=? fst be) enc_table with
             | Some (_, nbytes) => uint_encode_str nbytes body
             | None => Err (LibError SubstratePathError)
             end ;;
      if (sub_enc_elem_max_len <? length enc)%nat then Ok (blake enc)
      else Ok (enc ++ repeat 0 (sub_enc_elem_max_len - length enc))).
   Proof.
-    intros H1 H2. unfold chain_code_gen. rewrite H1, H2, sub_scale_int_encoders_ok. fold enc_table.
-    unfold Ok. cbv beta iota. unfold bit_length. rewrite Zabs2N.id. reflexivity.
+    intros H1 H2. unfold chain_code. rewrite H1, (py_int_decimal body H1), H2, sub_scale_int_encoders_ok.
+    fold enc_table. unfold Ok. cbv beta iota. unfold bit_length. rewrite Zabs2N.id. reflexivity.
   Qed.
 
-  Theorem chain_code_numeric err body :
-    body <> [] -> forallb cp_isdecimal body = true -> int_limit_ok (length body) = true ->
-    (numeral_value body < 2 ^ 256 -> exists b, chain_code_gen blake err body = Ok b /\ length b = 32%nat /\
-                                               bytes_ok b /\ le_to_int b = numeral_value body) /\
-    (2 ^ 256 <= numeral_value body -> chain_code_gen blake err body = Err (LibError SubstratePathError)).
+  Theorem chain_code_numeric body : py_isdecimal body = true ->
+    (int_limit_ok (length body) = true -> numeral_value body < 2 ^ 256 ->
+       exists b, chain_code blake body = Ok b /\ length b = 32%nat /\ bytes_ok b /\ le_to_int b = numeral_value body) /\
+    (int_limit_ok (length body) = true -> 2 ^ 256 <= numeral_value body ->
+       chain_code blake body = Err (LibError SubstratePathError)) /\
+    (int_limit_ok (length body) = false -> chain_code blake body = Err (LibError SubstratePathError)).
   Proof.
-    intros Hne Hd Hl.
-    assert (Hnum : Lemmas.Bip32PathSpec.numeral body).
-    { split; [exact Hne|]. split; [apply Forall_forall; rewrite forallb_forall in Hd; exact Hd|exact Hl]. }
-    destruct (Lemmas.Bip32Path.py_int_numeral body Hnum) as [Hisn Hint].
-    set (v := numeral_value body) in *.
-    rewrite (chain_code_gen_int err body v Hisn Hint). split.
-    - intros Hv. destruct (find_enc_some v Hv) as (bits & n & -> & Hb & -> & Hn).
+    intros Hd. set (v := numeral_value body). split; [|split].
+    - intros Hl Hv. rewrite (chain_code_int body Hd Hl). fold v.
+      pose proof (py_int_decimal body Hd) as Hint. rewrite Hl in Hint. fold v in Hint.
+      destruct (find_enc_some v Hv) as (bits & n & -> & Hb & -> & Hn).
       unfold uint_encode_str. rewrite Hint, bind_ok.
       assert (E1 : (Z.of_N v <? 0)%Z = false) by (apply Z.ltb_ge; lia).
       assert (E2 : (Z.of_N (2 ^ (8 * N.of_nat n)) - 1 <? Z.of_N v)%Z = false) by (apply Z.ltb_ge; lia).
@@ -370,53 +378,23 @@ Section ChainCodeLemmas.
       split; [rewrite app_length, repeat_length; lia|].
       split; [apply bytes_ok_app; split; [exact B1|apply bytes_ok_repeat0]|].
       unfold le_to_int in *. rewrite (from_le_pad 256 r256). exact B3.
-    - intros Hv. rewrite (find_enc_none v Hv). reflexivity.
-  Qed.
-
-  (* numeric for str.isnumeric(), but int() refuses it: the demanded error class vs today's *)
-  Theorem chain_code_numeric_not_int err body : py_isnumeric body = true ->
-    (forallb cp_isdecimal body = false \/ int_limit_ok (length body) = false) ->
-    chain_code_gen blake err body = Err err.
-  Proof.
-    intros Hn Hbad. unfold chain_code_gen. rewrite Hn.
-    unfold py_isnumeric in Hn. apply andb_true_iff in Hn. destruct Hn as [Hne Hn].
-    rewrite py_int_numeric by exact Hn. rewrite Hne. cbn [andb].
-    destruct Hbad as [-> | ->]; [reflexivity|]. rewrite andb_false_r. reflexivity.
-  Qed.
-
-  Theorem chain_code_current_refuted :
-    exists body, chain_code_current blake body = Err ValueError /\
-                 chain_code blake body = Err (LibError SubstratePathError).
-  Proof.
-    exists [178]. split; apply chain_code_numeric_not_int; try (vm_compute; reflexivity); left; vm_compute; reflexivity.
-  Qed.
-
-  (* the error class of int() is irrelevant where int() cannot fail *)
-  Theorem chain_code_gen_err_indep err1 err2 body :
-    (py_isnumeric body = false \/
-     (body <> [] /\ forallb cp_isdecimal body = true /\ int_limit_ok (length body) = true)) ->
-    chain_code_gen blake err1 body = chain_code_gen blake err2 body.
-  Proof.
-    intros [H|(H1 & H2 & H3)]; unfold chain_code_gen.
-    - rewrite H. reflexivity.
-    - assert (Hn : forallb cp_isnumeric body = true).
-      { apply forallb_forall. intros c I. apply cp_decimal_numeric. rewrite forallb_forall in H2. auto. }
-      rewrite (py_int_numeric body Hn), H2, H3. destruct body; [congruence|reflexivity].
+    - intros Hl Hv. rewrite (chain_code_int body Hd Hl). fold v. rewrite (find_enc_none v Hv). reflexivity.
+    - intros Hl. unfold chain_code. rewrite Hd, (py_int_decimal body Hd), Hl. reflexivity.
   Qed.
 
   (* ---------------------------------------------------------------- chain codes: text *)
 
-  Theorem chain_code_text err body u : py_isnumeric body = false -> utf8_encode body = Ok u ->
+  Theorem chain_code_text body u : py_isdecimal body = false -> utf8_encode body = Ok u ->
     let n := N.of_nat (length u) in
     ((length u <= 31)%nat ->
-       chain_code_gen blake err body = Ok (4 * n :: u ++ repeat 0 (31 - length u))) /\
-    ((32 <= length u)%nat -> n < 2 ^ 6 -> chain_code_gen blake err body = Ok (blake (4 * n :: u))) /\
+       chain_code blake body = Ok (4 * n :: u ++ repeat 0 (31 - length u))) /\
+    ((32 <= length u)%nat -> n < 2 ^ 6 -> chain_code blake body = Ok (blake (4 * n :: u))) /\
     (2 ^ 6 <= n < 2 ^ 14 -> exists pre, length pre = 2%nat /\ bytes_ok pre /\ le_to_int pre = 4 * n + 1 /\
-       chain_code_gen blake err body = Ok (blake (pre ++ u))) /\
+       chain_code blake body = Ok (blake (pre ++ u))) /\
     (2 ^ 14 <= n < 2 ^ 30 -> exists pre, length pre = 4%nat /\ bytes_ok pre /\ le_to_int pre = 4 * n + 2 /\
-       chain_code_gen blake err body = Ok (blake (pre ++ u))).
+       chain_code blake body = Ok (blake (pre ++ u))).
   Proof.
-    intros Hn Hu n. unfold chain_code_gen, bytes_encode_str. rewrite Hn, Hu, bind_ok. fold n.
+    intros Hn Hu n. unfold chain_code, bytes_encode_str. rewrite Hn, Hu, bind_ok. fold n.
     destruct (cuint_encode_spec n) as (C1 & C2 & C3). rewrite sub_enc_elem_max_len_ok.
     split; [|split; [|split]].
     - intros L. rewrite C1 by (unfold n; change (2 ^ 6) with 64; lia). rewrite !bind_ok. cbn [app length].
@@ -434,11 +412,38 @@ Section ChainCodeLemmas.
       unfold n in Hr. change (2 ^ 14) with 16384 in Hr. lia.
   Qed.
 
-  Theorem chain_code_text_unencodable err body e : py_isnumeric body = false -> utf8_encode body = Err e ->
-    chain_code_gen blake err body = Err UnicodeError.
+  Theorem chain_code_text_unencodable body e : py_isdecimal body = false -> utf8_encode body = Err e ->
+    chain_code blake body = Err UnicodeError.
   Proof.
-    intros Hn Hu. unfold chain_code_gen, bytes_encode_str. rewrite Hn, Hu. cbn [bind].
+    intros Hn Hu. unfold chain_code, bytes_encode_str. rewrite Hn, Hu. cbn [bind].
     rewrite (utf8_encode_err _ _ Hu). reflexivity.
+  Qed.
+
+  (* every refusal is the path error, or the encoding error of a lone surrogate
+     (for junction texts shorter than 2^30 encoded bytes, the range of the fixed-width compact modes) *)
+  Theorem chain_code_err body e :
+    (forall u, utf8_encode body = Ok u -> N.of_nat (length u) < 2 ^ 30) ->
+    chain_code blake body = Err e ->
+    e = LibError SubstratePathError \/ (e = UnicodeError /\ py_isdecimal body = false).
+  Proof.
+    intros Hshort H. destruct (py_isdecimal body) eqn:Hd.
+    - left. destruct (chain_code_numeric body Hd) as (A & B & C).
+      destruct (int_limit_ok (length body)) eqn:Hl.
+      + destruct (N.lt_ge_cases (numeral_value body) (2 ^ 256)) as [Hv|Hv].
+        * destruct (A eq_refl Hv) as (b & E & _). rewrite E in H. discriminate.
+        * rewrite (B eq_refl Hv) in H. inversion H. reflexivity.
+      + rewrite (C eq_refl) in H. inversion H. reflexivity.
+    - right. split; [|reflexivity]. destruct (utf8_encode body) as [u|e'] eqn:Hu.
+      + exfalso. destruct (chain_code_text body u Hd Hu) as (T1 & T2 & T3 & T4).
+        set (n := N.of_nat (length u)) in *.
+        destruct (Nat.le_gt_cases (length u) 31) as [L|L]; [rewrite (T1 L) in H; discriminate|].
+        destruct (N.lt_ge_cases n (2 ^ 6)) as [L1|L1]; [rewrite (T2 ltac:(lia) L1) in H; discriminate|].
+        destruct (N.lt_ge_cases n (2 ^ 14)) as [L2|L2].
+        { destruct (T3 (conj L1 L2)) as (pre & _ & _ & _ & E). rewrite E in H. discriminate. }
+        destruct (N.lt_ge_cases n (2 ^ 30)) as [L3|L3].
+        { destruct (T4 (conj L2 L3)) as (pre & _ & _ & _ & E). rewrite E in H. discriminate. }
+        specialize (Hshort u eq_refl). fold n in Hshort. lia.
+      + rewrite (chain_code_text_unencodable body e' Hd Hu) in H. inversion H. reflexivity.
   Qed.
 
   (* ---------------------------------------------------------------- derivation *)
